@@ -112,6 +112,12 @@ def rule_evaluator(fx, rep, iso):
                     fr.storev(t['dest'], Agg([Ref(v.root, list(v.proj)), Ref(v.root, list(v.proj) + [['off', k.v]])]))
                     return True
                 return False
+            if nm == 'is_zero' and c.get('trait') == 'CurveProjective' and len(args) == 1:
+                # the identity test of a Jacobian point is the zero test of its Z coordinate
+                v_ = fr.deref_operand(args[0])
+                if isinstance(v_, Agg) and len(v_.items) == 3 and isinstance(v_.items[2], Lin):
+                    fr.storev(t['dest'], ('bool', ('is_zero', v_.items[2], t['span'])))
+                    return True
             if nm == 'zero' and c.get('trait') == 'CurveProjective' and not args:
                 # the identity, as a value of its own (Z = 0 has no representation among the monomials)
                 fr.storev(t['dest'], Agg([exp.TOP, exp.TOP, exp.TOP], ('identity',)))
@@ -141,6 +147,22 @@ def rule_evaluator(fx, rep, iso):
                 continue
             if not (isinstance(out, Agg) and len(out.items) == 3):
                 bad.append('point not written back (%r)' % (out,))
+                continue
+            # a path taken only for the identity (the input's Z was found to be zero): the image is the identity, i.e. the
+            # Z it leaves must vanish with the input's z (returning the input unchanged does)
+            in_ident = False
+            for lab_, v_ in pth.labels:
+                x_, neg_ = lab_, False
+                while isinstance(x_, tuple) and x_ and x_[0] == 'not':
+                    neg_ = not neg_
+                    x_ = x_[1]
+                if isinstance(x_, tuple) and x_ and x_[0] == 'is_zero' and isinstance(x_[1], Lin) and x_[1] == Lin.atom('z') and ((v_ != 0) != neg_):
+                    in_ident = True
+            if in_ident:
+                zo_ = out.items[2]
+                if not (isinstance(zo_, Lin) and zo_.t.get('z', 0) > 0):
+                    bad.append('on the path taken for the identity the result is %r: its Z does not vanish with the input\'s' % (out,))
+                identity_input_paths = True
                 continue
             # path conditions on z:  eq(a, b) taken true with a - b = n*z  ->  z-exponents are only meaningful mod n
             zmod = 0
